@@ -115,6 +115,45 @@ func (c *yConn) Write(p []byte) (int, error) {
 	return n, err
 }
 
+// blocker: once armed, Write / WriteTo on the wrapped transport blocks until the transport is closed
+// (a peer that has stopped reading with the send buffer full)
+type blocker struct {
+	armed  atomic.Bool
+	closed chan struct{}
+	once   sync.Once
+}
+
+func newBlocker() *blocker  { return &blocker{closed: make(chan struct{})} }
+func (b *blocker) release() { b.once.Do(func() { close(b.closed) }) }
+
+type blockConn struct {
+	net.Conn
+	b *blocker
+}
+
+func (c *blockConn) Write(p []byte) (int, error) {
+	if c.b.armed.Load() {
+		<-c.b.closed
+		return 0, net.ErrClosed
+	}
+	return c.Conn.Write(p)
+}
+func (c *blockConn) Close() error { c.b.release(); return c.Conn.Close() }
+
+type blockPC struct {
+	net.PacketConn
+	b *blocker
+}
+
+func (c *blockPC) WriteTo(p []byte, a net.Addr) (int, error) {
+	if c.b.armed.Load() {
+		<-c.b.closed
+		return 0, net.ErrClosed
+	}
+	return c.PacketConn.WriteTo(p, a)
+}
+func (c *blockPC) Close() error { c.b.release(); return c.PacketConn.Close() }
+
 type yPC struct {
 	net.PacketConn
 	y yielder
@@ -218,6 +257,7 @@ type opts struct {
 	gateCli int // >0: gate the client's transport after that many writes
 	gateFor time.Duration
 	retrans int
+	block   *blocker // non-nil: the client's transport blocks in Write once armed
 }
 
 func newPair(o opts) (*pair, error) {
@@ -230,6 +270,9 @@ func newPair(o opts) (*pair, error) {
 		var cnc, snc net.Conn = &yConn{craw, y}, &yConn{sraw, y}
 		if o.gateCli > 0 {
 			cnc = &gateConn{Conn: craw, after: o.gateCli, sleep: o.gateFor}
+		}
+		if o.block != nil {
+			cnc = &blockConn{Conn: cnc, b: o.block}
 		}
 		cc, sc := tk.BuildTLCP(ccfg, reg), tk.BuildTLCP(scfg, reg)
 		cc.Rand, sc.Rand = yRand{randReader{}, y}, yRand{randReader{}, y}
@@ -254,6 +297,9 @@ func newPair(o opts) (*pair, error) {
 	var cp, sp net.PacketConn = &yPC{cpc, y}, &yPC{spc, y}
 	if o.gateCli > 0 {
 		cp = &gatePC{PacketConn: cpc, after: o.gateCli, sleep: o.gateFor}
+	}
+	if o.block != nil {
+		cp = &blockPC{PacketConn: cp, b: o.block}
 	}
 	cc, sc := tk.BuildDTLCP(ccfg, reg), tk.BuildDTLCP(scfg, reg)
 	cc.Rand, sc.Rand = yRand{randReader{}, y}, yRand{randReader{}, y}
@@ -522,8 +568,15 @@ func scWriters(firstUse bool) scenarioFn {
 			}
 			payloads = append(payloads, mine)
 		}
+		// first use: the writers are on the client or on the server (whose first Write then races with its
+		// own handshake, which ends by sending the last flight)
+		wr, rd := p.cli, p.srv
+		if firstUse && r.IntN(2) == 1 {
+			wr, rd = p.srv, p.cli
+			out.Note = "writers on the server"
+		}
 		sk := newSink(1, total)
-		g.goFn(func() { readLoop(p.srv, sk, 0, 4096, false) })
+		g.goFn(func() { readLoop(rd, sk, 0, 4096, false) })
 		stop := make(chan struct{})
 		noise(p.cli, g, r, stop, &hc)
 		noise(p.srv, g, r, stop, &hs)
@@ -536,9 +589,9 @@ func scWriters(firstUse bool) scenarioFn {
 					var n int
 					var err error
 					if useTo && len(pl) <= 1100 {
-						n, err = p.cli.writeTo(pl)
+						n, err = wr.writeTo(pl)
 					} else {
-						n, err = p.cli.Write(pl)
+						n, err = wr.Write(pl)
 					}
 					if err != nil || n != len(pl) {
 						atomic.AddInt32(&bad, 1)
@@ -687,6 +740,53 @@ func scCloseRace(o opts, r *rand.Rand, out *RunOut) error {
 	out.Panic = g.panicText()
 	out.HsCli, out.HsSrv = hc.v, hs.v
 	out.Stream = sk.stream()
+	return nil
+}
+
+// closeBlockedWrite: Writes are blocked inside the transport (the peer has stopped reading) when Close is
+// called: Close must return and release them
+func scCloseBlockedWrite(o opts, r *rand.Rand, out *RunOut) error {
+	o.block = newBlocker()
+	p, err := newPair(o)
+	if err != nil {
+		return err
+	}
+	var hc, hs results
+	if !preHandshake(p, out, &hc, &hs) {
+		return nil
+	}
+	g := newGroup()
+	o.block.armed.Store(true)
+	nw := 1 + r.IntN(3)
+	for w := 0; w < nw; w++ {
+		pl := payload(w+1, 500+r.IntN(900))
+		out.Tags = append(out.Tags, [2]int{w + 1, len(pl) - hdrLen})
+		g.goFn(func() { p.cli.Write(pl) })
+	}
+	if r.IntN(2) == 0 {
+		g.goFn(func() { buf := make([]byte, 64); p.cli.Read(buf) })
+	}
+	time.Sleep(time.Duration(500+r.IntN(3000)) * time.Microsecond)
+	out.Tail, out.Sub = true, true
+	closed := make(chan struct{})
+	go func() { p.cli.Close(); close(closed) }()
+	select {
+	case <-closed:
+	case <-time.After(3 * time.Second):
+		out.Note = "Close did not return while a Write was blocked in the transport"
+		out.Stalled = true
+	}
+	out.Active = -1
+	if p.cli.readFrom != nil && !out.Stalled {
+		out.Active = int(p.cli.active())
+	}
+	out.Stuck = g.wait(3 * time.Second)
+	p.cli.rawClose()
+	o.block.release()
+	p.srv.Close()
+	p.srv.rawClose()
+	out.Panic = g.panicText()
+	out.HsCli, out.HsSrv = hc.v, hs.v
 	return nil
 }
 
@@ -945,6 +1045,7 @@ var scenarios = map[string]scenarioFn{
 	"readers":         scReaders,
 	"close-race":      scCloseRace,
 	"close-handshake": scCloseHandshake,
+	"close-blocked":   scCloseBlockedWrite,
 	"accessors":       scAccessors,
 	"deadlines":       scDeadlines,
 	"pa":              scPa,
